@@ -23,6 +23,8 @@
      HS s | r | i..             (array, vector), slice_deref_vec
      HSS s | r1 | .. | rk | i.. (array, vector), slice_slice_vec k-1 times, slice_deref_vec
      HRR r1 | .. | rk | i..     slice_range_vec k-1 times, range_deref_vec
+     HDS r1 | .. | rk           slice_range_vec chain (the range vector of a[r1]..[rk]), slice_dim_name of every name
+     HDR r                      range_dim_name of every name
      HT chars | i               string_deref                  -> ok k | oob -1
      HU chars | from to         slice_string                  -> ok chars | oob -1
      HP s | s    HQ s | s       arr_addsub / arr_matmul       -> ok shape | size | nil
@@ -151,6 +153,22 @@ let run_line line =
        (match chain v1 1 with
         | Exc e -> "HRR " ^ show_exc e
         | Ok v -> "HRR " ^ show_res ints (range_deref_vec dims (Some v) (zs (nums (g (n - 1))))))
+     | "HDS" ->
+       (* HDS r1 | .. | rk : SLICE_SLICE chain on vectors, then every bound name of the slice parameter *)
+       let n = List.length gs in
+       let v1 = zs (nums (g 0)) in
+       let dims = List.length v1 / 2 in
+       let rec chain v k =
+         if k >= n then Ok v
+         else match slice_range_vec (nat_of_int dims) (Some v) (Some (zs (nums (g k)))) with
+           | Ok v2 -> chain v2 (k + 1)
+           | Exc e -> Exc e in
+       (match chain v1 1 with
+        | Exc e -> "HDS " ^ show_exc e
+        | Ok v -> "HDS ok " ^ ints (List.init (2 * dims) (fun k -> slice_dim_name v (nat_of_int k))))
+     | "HDR" ->
+       let v = zs (nums (g 0)) in
+       "HDR ok " ^ ints (List.init (List.length v) (fun k -> range_dim_name v (nat_of_int k)))
      | "HT" ->
        (match nums (g 1) with
         | [i] -> "HT " ^ show_res (fun k -> string_of_int (int_of_z k)) (string_deref (Some (zs (nums (g 0)))) (z_of_int i))
